@@ -20,6 +20,9 @@ def ev_key(time, ty, task):
     return (time, DOC_PRIO.index(ty), task or "")
 
 
+F37_PLANNERS = ("TetriSched_Gurobi", "TetriSched_CPLEX", "ILP", "Z3")
+
+
 def graph_info(run):
     info = {}
     for e in run["log"]:
@@ -512,7 +515,7 @@ def mon_c18(run, world, f36_out=None, f38_out=None):
     return bad
 
 
-def mon_c12(run, world, f40_out=None):
+def mon_c12(run, world, f40_out=None, f37c_out=None):
     """end-to-end consequence of deadline enforcement: with exact runtimes every task that completes under a planner that
     enforces deadlines does so by its deadline; a task that was hopeless when it was offered is never started"""
     bad = []
@@ -527,17 +530,21 @@ def mon_c12(run, world, f40_out=None):
     # known finding F40: the TetriSched-CPLEX formulation has no precedence rows, so a task offered ahead of its release
     # (lookahead / release_taskgraphs) is planned before its parents end, waits for them, and may complete late
     f40 = pol == "TetriSched_CPLEX" and (f.get("scheduler_lookahead", 0) > 0 or f.get("release_taskgraphs"))
+    # known finding F37 (consequence): with requests for SPECIFIC resource units the planners' by-name capacity accounting
+    # differs from what a Worker can allocate, the plan is not executable at its chosen times, placements are retried and
+    # tasks complete late
+    f37c = pol in F37_PLANNERS and any(not k.endswith(":any") for p in world["workload"]["profiles"]
+                                        for st in p["execution_strategies"] for k in st["resource_requirements"])
     for x in run["final"]:
         if x[1] == "COMPLETED" and x[3] is not None and x[5] is not None and x[3] > x[5]:
             msg = "task %s completed at %s, after its deadline %s, under %s with deadline enforcement" % (x[0], x[3], x[5], pol)
             if f40 and f40_out is not None:
                 f40_out.append(msg)
+            elif f37c and f37c_out is not None:
+                f37c_out.append(msg)
             else:
                 bad.append(msg)
     return bad
-
-
-F37_PLANNERS = ("TetriSched_Gurobi", "TetriSched_CPLEX", "ILP", "Z3")
 
 
 def unfit_on_empty(requests, units):
